@@ -198,7 +198,7 @@ class C12(Check):
                    'min/max of an empty sequence with reduce=True emit None (pinned by the suite); mean of an empty sequence is outside the domain']
     ANCHORS = ['rxsci/math/sum.py', 'rxsci/math/mean.py', 'rxsci/math/min.py', 'rxsci/math/max.py', 'rxsci/math/variance.py',
                'rxsci/math/stddev.py', 'rxsci/math/formal/variance.py', 'rxsci/math/formal/stddev.py', 'rxsci/math/formal/__init__.py']
-    REQUIRED_TAGS = ['op=' + o for o in OPS] + ['plain', 'mux', 'group', 'km', 'n=0', 'n=1', 'n>=1000', 'n>1024', 'offset>=1e6', 'kind=np_int64', 'kind=np_int32', 'kind=outlier_first', 'kind=py_int_ns', 'kind=int_first', 'kind=int_float_mix', 'kind=top_binade', 'groups-of-different-magnitudes', 'formal-operator-streaming-over-8192-items']
+    REQUIRED_TAGS = ['op=' + o for o in OPS] + ['plain', 'mux', 'group', 'km', 'n=0', 'n=1', 'n>=1000', 'n>1024', 'offset>=1e6', 'kind=np_int64', 'kind=np_int32', 'kind=outlier_first', 'kind=py_int_ns', 'kind=int_first', 'kind=int_float_mix', 'kind=top_binade', 'groups-of-different-magnitudes', 'formal-operator-streaming-over-8192-items', 'linear-operator-over-8192-items-on-one-key']
     REQUIRED_OBSERVED = ['values_compared', 'stream_equals_reduce_checks']
 
     def generate(self, rng, tier, shard, nshards):
@@ -213,6 +213,14 @@ class C12(Check):
             # emission judged - elsewhere only their reduce value is checked beyond 1200 items
             yield {'op': ('fvariance', 'fstddev')[shard], 'mode': 'plain', 'km': False, 'stream_all': True, 'watchdog_s': 600,
                    'data': {'kind': 'late_spikes', 'n': 8300 + shard * 500, 'offset': 1e3, 'scale': 1.0, 'dseed': rng.randrange(1 << 30)}}
+        if shard == 0 or tier == 'thorough':
+            # the linear-cost operators on ONE sequence of 8193 .. 10000 items (the upper end of the stated range): blocked or
+            # compensated accumulation schemes flush every 2**k items
+            for j, op_ in enumerate(('sum', 'mean', 'min', 'max', 'variance', 'stddev')):
+                for mode_ in (('plain', 'mux') if tier == 'quick' else ('plain', 'mux', 'group')):
+                    yield {'op': op_, 'mode': mode_, 'km': mode_ != 'plain' and j % 2 == 0, 'long_linear': True,
+                           'data': {'kind': ('small_ints', 'gauss', 'int')[(j + shard) % 3], 'n': (8193, 8200, 10000, 9000, 8193 + 4096, 10000)[(j + shard) % 6],
+                                    'offset': (0.0, 1e3, 1.0)[(j + shard) % 3], 'scale': 1.0, 'dseed': rng.randrange(1 << 30)}}
         for k in range(ncases):
             op = OPS[k % len(OPS)]
             n = ns[(k // len(OPS)) % len(ns)]
@@ -281,6 +289,8 @@ class C12(Check):
             out.tags.append('km')
         if abs(spec['offset']) >= 1e6:
             out.tags.append('offset>=1e6')
+        if case.get('long_linear') and n > 8192:
+            out.tags.append('linear-operator-over-8192-items-on-one-key')
         if n > 1024:
             out.tags.append('n>1024')
         if case.get('stream_all'):
